@@ -316,6 +316,10 @@ def model_enums(bodies):
     return res
 
 
+ENUM_ATTRS = [['deprecated'], [], ['deprecated', '(', '"x"', ')'], ['gnu', '::', 'unused', ',', 'maybe_unused'], ['a', '(', '[', '1', ']', ',', '{', '}', ')'],
+              ['using', 'gnu', ':', 'x'], ['a', '<', 'b']]
+
+
 def correspond_enums(ctx, corr):
     rng = ctx.rng
     bodies, metas = [], []
@@ -329,6 +333,14 @@ def correspond_enums(ctx, corr):
             if i:
                 toks.append(',')
             toks.append('K%d' % i)
+            if rng.random() < 0.3:
+                # attribute-specifier-seq behind the name: a [[ ]] group first, then any mix of [[ ]] and alignas( )
+                toks += ['[['] + rng.choice(ENUM_ATTRS) + [']]']
+                for _ in range(rng.choice([0, 0, 1, 2])):
+                    if rng.random() < 0.5:
+                        toks += ['[['] + rng.choice(ENUM_ATTRS) + [']]']
+                    else:
+                        toks += ['alignas', '('] + rng.choice([['8'], ['int'], ['sizeof', '(', 'X', ')']]) + [')']
             if v is not None:
                 toks += ['='] + list(v)
         if n and rng.random() < 0.3:
